@@ -44,6 +44,7 @@ def layout(text):
     where["action"] = (text, here()); add("a    { g_s2 = t_s2; gl_s2 = l_s2; g_act = %s; gl_act = __LINE__; %s }" % (E, CM))
     add("b    {")
     add("       int k_[2] = {1, 1}; %s" % CM)
+    add("       // %s ." % comment_safe(text))        # the text again in a C++-style comment of the action
     where["actionbrace"] = (text, here()); add("       if (k_[k_[0]] == 1) { g_brace = %s; gl_brace = __LINE__; }" % E)
     add("     }")
     add("c    |")
